@@ -57,7 +57,8 @@ int main(int argc, char ** argv) {
         if (ok && (nr != reads + 4 || ns != seeks)) opdiff++;
         // the same scan on the outer stream class (CompressedFile over a real std::fstream, whose seekg clears
         // eofbit): same end position / same obligation to end
-        {
+        // (every filler up to length 6; longer ones only on the in-memory stream: one real file per vector is slow)
+        if (filler.size() <= 6) {
             std::string path = std::string(argv[1]) + ".bin";
             { std::ofstream of(path, std::ios::binary | std::ios::trunc); of.write((const char *) bytes.data(), (std::streamsize) bytes.size()); }
             g_cur = filler + (tail ? " (file ends here)" : "") + " on CompressedFile";
